@@ -431,3 +431,69 @@ def negmin_cases(base_id=400000):
         cases.append(_case(cid, _fn(ty, [], A.binop("add", ty, neg, A.host("in", ty, 0, []))), ty,
                            [[{"ty": ty, "v": A.int_bytes(ty, 1)}], [{"ty": ty, "v": A.int_bytes(ty, mag - 1)}]]))
     return cases
+
+
+# ---------------------------------------------------------------- equality matrix on enums / records (C02)
+
+def eq_cases(base_id=500000):
+    """Directed family for `==` / `!=` on aggregates: enums with 2..5 variants (unit variants, one payload, two
+    payloads, a String payload in one family), every pair of variants x equal / different payloads, compared
+    directly, inside a record, and through `contains` on a list.  Expected values come from RotoSem."""
+    cases = []
+    cid = base_id
+    for nv, with_str in ((2, False), (3, False), (4, False), (5, False), (3, True)):
+        payloads = [[], ["u32"], ["u32", "bool"], [], ["u8"]][:nv]
+        if with_str:
+            payloads = [["str"], ["u8", "u32"], ["u32"]]
+        tname = "E%d%s" % (nv, "s" if with_str else "")
+        tdecl = {"k": "enum", "n": tname, "ps": [], "vs": [["W%d" % j, payloads[j]] for j in range(nv)]}
+        ty = ["named", tname, []]
+        rdecl = {"k": "record", "n": "R" + tname, "ps": [], "fs": [["a", "u8"], ["e", ty], ["z", "u32"]]}
+        rty = ["named", "R" + tname, []]
+
+        def value(j, pu, pb):
+            args = []
+            for t in payloads[j]:
+                if t == "u32":
+                    args.append(A.var(pu))
+                elif t == "u8":
+                    args.append(A.lit("u8", A.int_bytes("u8", 3)) if False else A.binop("add", "u8", A.lit("u8", A.int_bytes("u8", 1)), A.lit("u8", A.int_bytes("u8", 2))))
+                elif t == "bool":
+                    args.append(A.var(pb))
+                else:
+                    args.append(A.if_(A.var(pb), A.block([], A.lit("str", A.str_val("left"))), A.block([], A.lit("str", A.str_val("right")))))
+            return {"k": "ctor", "en": tname, "v": "W%d" % j, "args": args}
+        e = value(nv - 1, "p", "q")
+        for j in range(nv - 2, -1, -1):
+            e = A.if_(A.binop("eq", "u8", A.var("k"), A.ilit("u8", j)), A.block([], value(j, "p", "q")), A.block([], e))
+        make = {"ps": ["k", "p", "q"], "pts": ["u8", "u32", "bool"], "rt": ty, "b": A.block([], e)}
+
+        def mk(base):
+            return {"k": "call", "f": "make", "args": [A.host("in", "u8", base, []), A.host("in", "u32", base + 1, []), A.host("in", "bool", base + 2, [])]}
+        runs = []
+        for i in range(nv):
+            for j in range(nv):
+                for (p1, q1, p2, q2) in ((7, True, 7, True), (7, True, 8, True), (7, True, 7, False), (0, False, 1 << 24, False)):
+                    runs.append([{"ty": "u8", "v": A.int_bytes("u8", i)}, {"ty": "u32", "v": A.int_bytes("u32", p1)}, {"ty": "bool", "v": q1},
+                                 {"ty": "u8", "v": A.int_bytes("u8", j)}, {"ty": "u32", "v": A.int_bytes("u32", p2)}, {"ty": "bool", "v": q2}])
+        fns = {"make": make}
+        for form in ("direct_eq", "direct_ne", "in_record", "list_contains"):
+            if form == "direct_eq":
+                body = A.block([A.let("x1", ty, mk(0)), A.let("y1", ty, mk(3))], A.binop("eq", "plain", A.var("x1"), A.var("y1")))
+                types = [tdecl]
+            elif form == "direct_ne":
+                body = A.block([], A.binop("ne", "plain", mk(0), mk(3)))
+                types = [tdecl]
+            elif form == "in_record":
+                r1 = {"k": "rec", "name": "R" + tname, "fs": [["a", A.ilit("u8", 1)], ["e", mk(0)], ["z", A.ilit("u32", 9)]]}
+                r2 = {"k": "rec", "name": "R" + tname, "fs": [["a", A.ilit("u8", 1)], ["e", mk(3)], ["z", A.ilit("u32", 9)]]}
+                body = A.block([A.let("x1", rty, r1), A.let("y1", rty, r2)], A.binop("eq", "plain", A.var("x1"), A.var("y1")))
+                types = [tdecl, rdecl]
+            else:
+                lst = {"k": "list", "es": [{"k": "call", "f": "make", "args": [A.ilit("u8", 0), A.ilit("u32", 7), A.lit("bool", True)]}, mk(0)]}
+                body = A.block([A.let("l1", ["list", ty], lst)], {"k": "lcall", "m": "contains", "r": A.var("l1"), "args": [mk(3)]})
+                types = [tdecl]
+            prog = {"types": types, "fns": dict(fns, main={"ps": [], "pts": [], "rt": "bool", "b": body})}
+            cid += 1
+            cases.append(_case(cid, prog, "bool", runs))
+    return cases
